@@ -174,10 +174,17 @@ def modules(tier):
             for nl in ("\n", "\r\n"):
                 for trail in (True, False):
                     yield (ids, "nl", nl, trail), assemble(parts, "nl", nl, trail)
+            if n <= 2:
+                # a lone carriage return is a line terminator for Python too
+                yield (ids, "nl", "\r", True), assemble(parts, "nl", "\r", True)
             if n >= 2 and n <= 3 and all(i < nsimple and forms[i][0] != "comment" for i in combo):
                 yield (ids, ";", "\n", True), assemble(parts, ";", "\n", True)
                 if n == 2:
                     yield (ids, ";", "\n", False), assemble(parts, ";", "\n", False)
+                    # statements sharing a line in a CRLF / CR file, with and without a following line
+                    for nl in ("\r\n", "\r"):
+                        yield (ids, ";", nl, True), assemble(parts, ";", nl, True)
+                        yield (ids + ["assign"], ";", nl, True), assemble(parts, ";", nl, True) + "x = 1" + nl
     for old_mod, names in mapping.items():
         for name in names:
             yield (["mapped:" + old_mod + "." + name], "nl", "\n", True), \
